@@ -4,12 +4,14 @@
 -/
 import IbcVerif.Util.J
 import IbcVerif.Driver.Height
+import IbcVerif.Driver.Commit
 open Lean
 namespace IbcVerif.Driver.Pure
 open IbcVerif.J
 
 def handlers : List (String → Json → Option (Except String Json)) :=
   [ IbcVerif.Driver.Height.handle
+  , IbcVerif.Driver.Commit.handle
   ]
 
 def handle (f : String) (j : Json) : Except String Json :=
